@@ -25,8 +25,16 @@ def loop_shape(fn, ctx, L):
            "continues": [e for e in allx if e[1] == "continue"]}
     ini = fn.nodes[n["init"]] if n.get("init") is not None else None
     v = None
-    if ini and ini["k"] == "decl" and len(ini["vars"]) == 1 and ini["vars"][0].get("init") is not None:
+    if ini and ini["k"] == "decl" and len(ini["vars"]) >= 1 and all(x.get("init") is not None for x in ini["vars"]):
         v = ini["vars"][0]
+        if len(ini["vars"]) > 1 and n.get("inc") is not None:
+            # for (it = c.begin(), last = c.end(); ...; ++it): the loop variable is the one the increment advances
+            inc_ = fn.nodes[n["inc"]]
+            tgt_ = inc_.get("sub") if inc_["k"] == "un" else (inc_["args"][0] if inc_["k"] == "call" and inc_.get("args") else None)
+            if tgt_ is not None and fn.nodes[tgt_]["k"] == "ref":
+                for x in ini["vars"]:
+                    if x["d"] == fn.nodes[tgt_]["d"]:
+                        v = x
         startnode = v["init"]
     elif ini and ((ini["k"] == "bin" and ini["op"] == "=") or (ini["k"] == "call" and ini.get("ck") == "op" and ini.get("op") == "=" and len(ini["args"]) == 2)):
         # the counter / iterator was declared before the loop and is set in the for-init:  for (it = c.begin(); ...)
